@@ -166,15 +166,17 @@ theorem hist_afterResults (s : St) (h : HistInv s) (hb : bootPc s.cpc = false) (
           obtain ⟨j, _, rfl⟩ := hp
           show 1 ≤ s.callNo
           omega
-  unfold afterResults
-  simp only []
-  split
-  · split
-    · split
-      · exact key .flowClear rfl rfl
-      · exact key .flowIsSet rfl rfl
-    · exact key .rdSending rfl rfl
-  · exact key .rdSending rfl rfl
+  obtain ⟨c', heq, hcl⟩ := afterResults_pc s
+  rw [heq]
+  rcases hcl with h | h | h | ⟨wid, h⟩ <;> subst h <;> exact key _ rfl rfl
+
+theorem hist_afterBatch (s : St) (h : HistInv s) (hb : bootPc s.cpc = false) (he : exitPc s.cpc = false) :
+    HistInv (afterBatch s) := by
+  obtain ⟨c', heq, hcl⟩ := afterBatch_eq s
+  rw [heq]
+  refine hist_cpc' s h c' ?_ ?_
+  · rw [hb]; rcases hcl with h | h | h <;> subst h <;> rfl
+  · rw [he]; rcases hcl with h | h | h <;> subst h <;> rfl
 
 theorem exitJoinFrom_class (s : St) (fuel : Nat) :
     ∀ i, bootPc (exitJoinFrom s fuel i) = false ∧ exitPc (exitJoinFrom s fuel i) = true := by
@@ -446,6 +448,19 @@ theorem hist_stepC (s s' : St) (hs0 : SafeInv s) (h : HistInv s) (hs : stepC s =
         exact hist_frame h rfl rfl rfl rfl rfl
           (by rw [hpc]; exact (exitJoinFrom_class _ _ _).1) (by rw [hpc]; exact (exitJoinFrom_class _ _ _).2)
       · simp at hs
+  · -- midReady
+    rename_i i wid hpc
+    split at hs
+    · simp at hs
+    · split at hs
+      · split at hs
+        · simp only [Option.some.injEq] at hs
+          subst hs
+          exact hist_frame h rfl rfl rfl rfl rfl (by rw [hpc]; rfl) (by rw [hpc]; rfl)
+        · simp only [Option.some.injEq] at hs
+          subst hs
+          exact hist_afterBatch s h (by rw [hpc]; rfl) (by rw [hpc]; rfl)
+      · simp at hs
   · -- done
     simp at hs
 
@@ -461,12 +476,12 @@ theorem afterResults_cfg (s : St) : (afterResults s).cfg = s.cfg := by
     | some call =>
       obtain ⟨buf', wf', em, hcb, -, -, -⟩ := consumeBatch_spec s call hc
       rw [hcb]
-  unfold afterResults
-  simp only []
-  split
-  · split
-    · split <;> exact key
-    · exact key
-  · exact key
+  obtain ⟨c', heq, _⟩ := afterResults_pc s
+  rw [heq]
+  exact key
+
+theorem afterBatch_cfg (s : St) : (afterBatch s).cfg = s.cfg := by
+  obtain ⟨c', heq, _⟩ := afterBatch_eq s
+  rw [heq]
 
 end WindVerif.Pool
